@@ -236,14 +236,10 @@ impl Calendar {
             );
         }
 
+        let (era, year, month_code) = self.icu_codes(partial, &resolved_fields)?;
         let calendar_date = self
             .0
-            .date_from_codes(
-                resolved_fields.era_year.era.map(|era| IcuEra(era.0)),
-                resolved_fields.era_year.year,
-                IcuMonthCode(resolved_fields.month_code.0),
-                resolved_fields.day,
-            )
+            .date_from_codes(era, year, month_code, resolved_fields.day)
             .map_err(TemporalError::from_icu4x)?;
         let iso = self.0.date_to_iso(&calendar_date);
         PlainDate::new_with_overflow(
@@ -253,6 +249,69 @@ impl Calendar {
             self.clone(),
             overflow,
         )
+    }
+
+    /// The era, year and month code to hand to the calendrical library for resolved fields.
+    fn icu_codes(
+        &self,
+        partial: &PartialDate,
+        resolved_fields: &ResolvedCalendarFields,
+    ) -> TemporalResult<(Option<IcuEra>, i32, IcuMonthCode)> {
+        let year = resolved_fields.era_year.year;
+        let (era, year) = match &resolved_fields.era_year.era {
+            Some(era) => (Some(IcuEra(era.0)), year),
+            // The Japanese calendars of the calendrical library read a year without an era as
+            // a year of the common era, which they count from 1.
+            None if year <= 0
+                && matches!(
+                    self.0 .0.kind(),
+                    AnyCalendarKind::Japanese | AnyCalendarKind::JapaneseExtended
+                ) =>
+            {
+                (Some(IcuEra(tinystr!(16, "bce"))), 1 - year)
+            }
+            None => (None, year),
+        };
+        let month_code = match (partial.month, partial.month_code) {
+            // An ordinal month is a position in the year: in a year with a leap month the
+            // codes of the leap month and of those after it carry a smaller number.
+            (Some(ordinal), None) => self
+                .month_code_for_ordinal(era, year, ordinal)
+                .unwrap_or(resolved_fields.month_code),
+            _ => resolved_fields.month_code,
+        };
+        Ok((era, year, IcuMonthCode(month_code.0)))
+    }
+
+    /// The code of the month at position `ordinal` of a year.
+    fn month_code_for_ordinal(
+        &self,
+        era: Option<IcuEra>,
+        year: i32,
+        ordinal: u8,
+    ) -> Option<MonthCode> {
+        let number = |n: u8, leap: bool| {
+            let bytes = [
+                b'M',
+                b'0' + n / 10,
+                b'0' + n % 10,
+                if leap { b'L' } else { 0 },
+            ];
+            TinyAsciiStr::<4>::try_from_raw(bytes).ok()
+        };
+        [
+            number(ordinal, false),
+            number(ordinal.checked_sub(1)?, true),
+            number(ordinal - 1, false),
+        ]
+        .into_iter()
+        .flatten()
+        .find(|code| {
+            self.0
+                .date_from_codes(era, year, IcuMonthCode(*code), 1)
+                .is_ok_and(|date| self.0.month(&date).ordinal == ordinal)
+        })
+        .map(MonthCode)
     }
 
     /// `CalendarPlainMonthDayFromFields`
@@ -297,14 +356,10 @@ impl Calendar {
         }
 
         // NOTE: This might preemptively throw as `ICU4X` does not support regulating.
+        let (era, year, month_code) = self.icu_codes(partial, &resolved_fields)?;
         let calendar_date = self
             .0
-            .date_from_codes(
-                resolved_fields.era_year.era.map(|era| IcuEra(era.0)),
-                resolved_fields.era_year.year,
-                IcuMonthCode(resolved_fields.month_code.0),
-                resolved_fields.day,
-            )
+            .date_from_codes(era, year, month_code, resolved_fields.day)
             .map_err(TemporalError::from_icu4x)?;
         let iso = self.0.date_to_iso(&calendar_date);
         PlainYearMonth::new_with_overflow(
